@@ -31,7 +31,6 @@ static int __setkey_check(jwt_builder_t *__cmd, const jwt_alg_t alg, const jwk_i
 int NAME(verif_cmd_t *__cmd, const jwt_alg_t alg, const jwk_item_t *key) \
 __CPROVER_requires(__cmd == NULL || __CPROVER_is_fresh(__cmd, sizeof(*__cmd))) \
 __CPROVER_requires(key == NULL || __CPROVER_is_fresh(key, sizeof(*key))) \
-__CPROVER_requires(SPEC_ALG_IN_ENUM(alg) && (key == NULL || SPEC_ALG_IN_ENUM(key->alg))) \
 __CPROVER_requires(__cmd == NULL || SPEC_ERRMSG_TERMINATED(__cmd)) \
 __CPROVER_requires(OBS(sk_alg, alg) && OBS(sk_haskey, key != NULL) && OBS(sk_keyalg, key ? key->alg : -1) && \
 		   OBS(sk_priv, key ? key->is_private_key : -1)) \
@@ -48,7 +47,6 @@ DECL___setkey_check(contract_C02___setkey_check);
 int NAME(verif_cmd_t *__cmd, const jwt_alg_t alg, const jwk_item_t *key) \
 __CPROVER_requires(__cmd == NULL || __CPROVER_is_fresh(__cmd, sizeof(*__cmd))) \
 __CPROVER_requires(key == NULL || __CPROVER_is_fresh(key, sizeof(*key))) \
-__CPROVER_requires(SPEC_ALG_IN_ENUM(alg) && (key == NULL || SPEC_ALG_IN_ENUM(key->alg))) \
 __CPROVER_requires(__cmd == NULL || SPEC_ERRMSG_TERMINATED(__cmd)) \
 __CPROVER_requires(OBS(sk_alg, alg) && OBS(sk_haskey, key != NULL) && OBS(sk_keyalg, key ? key->alg : -1) && \
 		   OBS(sk_priv, key ? key->is_private_key : -1)) \
@@ -63,135 +61,95 @@ DECL_setkey(contract_C02_setkey);
 
 #ifdef VERIF_TU_CHECKER
 /* ===================== jwt_checker_verify (top level) =================== */
-/* ghost snapshot written by the abstract jwt_parse (stubs/verify_top.c) */
+/* The top-level function is verified as PLUMBING between three abstract
+ * bodies (stubs/verify_top.c: jwt_new, jwt_parse, jwt_verify_complete) and the
+ * callback contract: its postconditions say which token text, split point,
+ * key, algorithm and claims reach jwt_verify_complete and how the verdict
+ * travels back.  Composed with contract_all_jwt_verify_complete (proved on the
+ * real function) this yields the API-level statements of C01-C04, C09, C19. */
 extern int g_parse_called, g_parse_ret, g_parsed_has, g_parsed_type;
 extern long long g_parsed_int; extern const char *g_parsed_str;
 extern jwt_alg_t g_parsed_alg; extern unsigned g_parsed_len;
-/* ghost record of the user callback (written by its contract) */
+extern unsigned g_vc_calls; extern const char *g_vc_token; extern unsigned g_vc_plen; extern const jwk_item_t *g_vc_key;
+extern jwt_alg_t g_vc_alg, g_vc_hdr_alg; extern const void *g_vc_checker; extern int g_vc_has, g_vc_type, g_vc_error;
+extern long long g_vc_int; extern const char *g_vc_str;
+/* ghost record of the user callback (written by its contract) and the objects it may hand out */
 extern int g_cb_called, g_cb_ret; extern const jwk_item_t *g_cb_key; extern jwt_alg_t g_cb_alg;
+extern jwk_item_t *g_cb_pool_key; extern json_t *g_cb_pool_node;
 #define TOP_GHOSTS g_parse_called, g_parse_ret, g_parsed_has, g_parsed_type, g_parsed_int, g_parsed_str, g_parsed_alg, \
-	g_parsed_len, g_cb_called, g_cb_ret, g_cb_key, g_cb_alg, g_json_version, g_json_mutations, g_json_loads_flags
+	g_parsed_len, g_cb_called, g_cb_ret, g_cb_key, g_cb_alg, g_vc_calls, g_vc_token, g_vc_plen, g_vc_key, g_vc_alg, \
+	g_vc_hdr_alg, g_vc_checker, g_vc_has, g_vc_type, g_vc_int, g_vc_str, g_vc_error
 
-VERIF_OBS_DECL(cb_present) VERIF_OBS_DECL(ck_claims) VERIF_OBS_DECL(ck_alg) VERIF_OBS_DECL(ck_haskey)
+VERIF_OBS_DECL(cb_present) VERIF_OBS_DECL(ck_alg) VERIF_OBS_DECL(ck_haskey)
 
 /* What a user callback may do (DESIGN section 5): read the token object, edit
- * its claims/headers through the public API (modelled on the tracked member:
- * keep / delete / replace by a node of any type), choose a key and an algorithm,
- * return anything.  It touches nothing else. */
+ * its claims through the public API (modelled on the tracked member: keep /
+ * delete / replace by another node of any type), choose a key and an
+ * algorithm, return anything.  It touches nothing else. */
 int contract_cb_checker(jwt_t *jwt, jwt_config_t *config)
 __CPROVER_requires(__CPROVER_rw_ok(jwt, sizeof(*jwt)) && __CPROVER_rw_ok(config, sizeof(*config)))
 __CPROVER_requires(jwt->claims != NULL && __CPROVER_rw_ok(jwt->claims, sizeof(json_t)))
-__CPROVER_assigns(config->key, config->alg, jwt->claims->tracked, g_cb_called, g_cb_ret, g_cb_key, g_cb_alg, g_json_version, g_json_mutations)
+__CPROVER_assigns(config->key, config->alg, jwt->claims->tracked, g_cb_called, g_cb_ret, g_cb_key, g_cb_alg)
 __CPROVER_ensures(g_cb_called == 1 && g_cb_ret == __CPROVER_return_value && g_cb_key == config->key && g_cb_alg == config->alg)
 __CPROVER_ensures(SPEC_ALG_IN_ENUM(config->alg))
-__CPROVER_ensures(config->key == NULL || config->key == __CPROVER_old(config->key) ||
-	__CPROVER_is_fresh(config->key, sizeof(*config->key)))
-__CPROVER_ensures(config->key == NULL || (SPEC_ALG_IN_ENUM(config->key->alg) && config->key->bits <= 0x7fffffff))
-/* edits of the tracked claim: kept, deleted, or replaced by a fresh node */
+/* key choice: keep the configured key or drop it (the configured key is itself
+ * arbitrary, so "the callback picks key K" is covered by "K is configured and
+ * the callback keeps it") */
+__CPROVER_ensures(config->key == NULL || config->key == __CPROVER_old(config->key))
 __CPROVER_ensures(jwt->claims->tracked == NULL || jwt->claims->tracked == __CPROVER_old(jwt->claims->tracked) ||
-	(jwt->claims->type == JSON_OBJECT && __CPROVER_is_fresh(jwt->claims->tracked, sizeof(json_t)) &&
-	 jwt->claims->tracked->refcount == 1 && jwt->claims->tracked->tracked == NULL &&
-	 jwt->claims->tracked->type >= JSON_OBJECT && jwt->claims->tracked->type <= JSON_NULL))
-__CPROVER_ensures(jwt->claims->tracked == NULL || jwt->claims->tracked == __CPROVER_old(jwt->claims->tracked) ||
-	jwt->claims->tracked->type != JSON_STRING ||
-	(__CPROVER_is_fresh(jwt->claims->tracked->sval, g_vj_len_c + 1) && jwt->claims->tracked->sval[g_vj_len_c] == 0))
+	(jwt->claims->type == JSON_OBJECT && jwt->claims->tracked == g_cb_pool_node))
 ;
 
-/* the key / algorithm in force after the callback */
-#define TOP_KEY(CK) ((CK)->c.cb ? g_cb_key : (CK)->c.key)
-#define TOP_ALG(CK) ((CK)->c.cb ? g_cb_alg : (CK)->c.alg)
-#define TOP_SIGNED(token) ((token)[(size_t)g_parsed_len + 1] != 0)
-/* the parsed (pre-callback) tracked claim fails by the statement of C04 */
-#define SNAP_IS_INT (g_parsed_has && g_parsed_type == JSON_INTEGER)
-#define SNAP_IS_STR (g_parsed_has && g_parsed_type == JSON_STRING)
-#define SNAP_EXP_FAILS(CK) (((CK)->c.claims & JWT_CLAIM_EXP) && g_parsed_has && (!SNAP_IS_INT || !((long)g_parsed_int > g_now - (CK)->c.exp)))
-#define SNAP_NBF_FAILS(CK) (((CK)->c.claims & JWT_CLAIM_NBF) && g_parsed_has && (!SNAP_IS_INT || !((long)g_parsed_int <= g_now + (CK)->c.nbf)))
-#define SNAP_STR_MATCH(CK) (VJ_IS_STR((CK)->c.payload) && SNAP_IS_STR && g_strcmp_hits >= 1 && g_strcmp_b == g_parsed_str && g_strcmp_ret == 0)
-#define SNAP_FAILS(CK) ( \
-	(TRACKING3('e', 'x', 'p') && SNAP_EXP_FAILS(CK)) || (TRACKING3('n', 'b', 'f') && SNAP_NBF_FAILS(CK)) || \
-	(TRACKING3('i', 's', 's') && ((CK)->c.claims & JWT_CLAIM_ISS) && !SNAP_STR_MATCH(CK)) || \
-	(TRACKING3('s', 'u', 'b') && ((CK)->c.claims & JWT_CLAIM_SUB) && !SNAP_STR_MATCH(CK)) || \
-	(TRACKING3('a', 'u', 'd') && ((CK)->c.claims & JWT_CLAIM_AUD) && !SNAP_STR_MATCH(CK)))
+#define NOCB(CK) ((CK) != NULL && (CK)->c.cb == NULL)
+#define WITHCB(CK) ((CK) != NULL && (CK)->c.cb != NULL)
 
 #define DECL_jwt_checker_verify(NAME, CLAUSES) \
 int NAME(jwt_checker_t *__cmd, const char *token) \
 __CPROVER_requires(__cmd == NULL || __CPROVER_is_fresh(__cmd, sizeof(*__cmd))) \
-__CPROVER_requires(__cmd == NULL || VJ_IS_OBJECT(__cmd->c.payload)) \
-__CPROVER_requires(__cmd == NULL || VJ_TRACKED_OK(__cmd->c.payload, g_vj_len_b)) \
 __CPROVER_requires(__cmd == NULL || __cmd->c.key == NULL || __CPROVER_is_fresh(__cmd->c.key, sizeof(*__cmd->c.key))) \
-__CPROVER_requires(__cmd == NULL || (SPEC_ALG_IN_ENUM(__cmd->c.alg) && \
-	(__cmd->c.key == NULL || (SPEC_ALG_IN_ENUM(__cmd->c.key->alg) && __cmd->c.key->bits <= 0x7fffffff)))) \
+__CPROVER_requires(__cmd == NULL || (SPEC_ALG_IN_ENUM(__cmd->c.alg) && (__cmd->c.key == NULL || SPEC_ALG_IN_ENUM(__cmd->c.key->alg)))) \
 __CPROVER_requires(__cmd == NULL || __cmd->c.cb == NULL || __CPROVER_obeys_contract(__cmd->c.cb, contract_cb_checker)) \
+__CPROVER_requires(__CPROVER_is_fresh(g_cb_pool_node, sizeof(json_t)) && g_cb_pool_node->refcount == 2 /* shared with the callback */ && \
+	g_cb_pool_node->type >= JSON_OBJECT && g_cb_pool_node->type <= JSON_NULL && g_cb_pool_node->tracked == NULL) \
 __CPROVER_requires(__cmd == NULL || SPEC_ERRMSG_TERMINATED(__cmd)) \
-__CPROVER_requires(__cmd == NULL || C04_RANGES(__cmd)) \
-__CPROVER_requires(KEY_IS_NAME3) \
-__CPROVER_requires(g_vj_len_c < 0x1000000 && g_vj_len_a == g_vj_len_c && g_strcmp_hits == 0) \
-__CPROVER_requires(__cmd == NULL || (VJ_IS_STR(__cmd->c.payload) ==> g_strcmp_watch == VJ_STR(__cmd->c.payload))) \
-__CPROVER_requires(__cmd == NULL || (!VJ_IS_STR(__cmd->c.payload) ==> g_strcmp_watch == NULL)) \
-__CPROVER_requires(OPS_TABLE_OBEYS(all)) \
-__CPROVER_requires(g_parse_called == 0 && g_cb_called == 0) \
-__CPROVER_requires(__cmd == NULL || (OBS(cb_present, __cmd->c.cb != NULL) && OBS(ck_claims, __cmd->c.claims) && \
-	OBS(ck_alg, __cmd->c.alg) && OBS(ck_haskey, __cmd->c.key != NULL) && OBS(now, g_now) && \
-	OBS(leeway_exp, __cmd->c.exp) && OBS(leeway_nbf, __cmd->c.nbf) && OBS(key0, g_json_key[0]))) \
+__CPROVER_requires(KEY_IS_NAME3 && g_vj_len_c < 0x1000000) \
+__CPROVER_requires(g_parse_called == 0 && g_cb_called == 0 && g_vc_calls == 0) \
+__CPROVER_requires(__cmd == NULL || (OBS(cb_present, __cmd->c.cb != NULL) && OBS(ck_alg, __cmd->c.alg) && OBS(ck_haskey, __cmd->c.key != NULL))) \
 /* C13 frame: only the error state of the checker is written (ghosts aside) */ \
-__CPROVER_assigns(__cmd != NULL: __cmd->error, SPEC_ERRMSG_FRAME(__cmd); \
-		  g_strcmp_b, g_strcmp_ret, g_strcmp_hits, OPS_GHOST_ASSIGNS, TOP_GHOSTS) \
+__CPROVER_assigns(__cmd != NULL: __cmd->error, SPEC_ERRMSG_FRAME(__cmd); TOP_GHOSTS) \
 __CPROVER_ensures(__cmd == NULL ==> __CPROVER_return_value != 0) \
 __CPROVER_ensures(__cmd == NULL || SPEC_ERRMSG_TERMINATED(__cmd)) \
 CLAUSES
 
-#define TOP_ACCEPTED(CK) ((CK) != NULL && __CPROVER_return_value == 0)
 /* C14: return value, flag and message agree */
 #define C14_TOP_CLAUSES \
 __CPROVER_ensures(__cmd != NULL ==> ((__CPROVER_return_value != 0) == (__cmd->error != 0))) \
 __CPROVER_ensures(__cmd != NULL ==> ((__cmd->error != 0) == (__cmd->error_msg[0] != 0)))
-/* C01: acceptance with a key only on the word of a primitive about this key,
- * the header's algorithm and exactly the text before the second dot */
+/* C01 / C06: acceptance means: parsed, then judged once by jwt_verify_complete on
+ * exactly the caller's token text, split where jwt_parse split it, with the
+ * algorithm latched at parse time, and it left the flag clear */
 #define C01_TOP_CLAUSES \
-__CPROVER_ensures((TOP_ACCEPTED(__cmd) && TOP_KEY(__cmd) != NULL) ==> ( \
-	g_parse_ret == 0 && token[g_parsed_len] == '.' && TOP_SIGNED(token) && SPEC_IS_SIGNING(g_parsed_alg) && \
-	(SPEC_IS_HS(g_parsed_alg) ? \
-	 (g_mac_key == TOP_KEY(__cmd)->oct.key && g_mac_keylen == TOP_KEY(__cmd)->oct.len && \
-	  g_mac_data == (const void *)token && g_mac_len == g_parsed_len && g_mac_hash == SPEC_HASH_BITS(g_parsed_alg)) : \
-	 (g_ver_valid == 1 && (g_ver_keymat == TOP_KEY(__cmd)->provider_data || \
-			       (TOP_KEY(__cmd)->pem != NULL && g_ver_keymat == TOP_KEY(__cmd)->pem)) && \
-	  g_ver_data == (const void *)token && g_ver_len == g_parsed_len && \
-	  g_ver_hash == SPEC_HASH_BITS(g_parsed_alg) && g_ver_pss == SPEC_IS_PS(g_parsed_alg) && \
-	  g_ver_family == (int)SPEC_KTY_FOR(g_parsed_alg)))))
-/* C02: pinning, admission of the callback's choice, key family */
-#define C02_TOP_CLAUSES \
-__CPROVER_ensures((TOP_ACCEPTED(__cmd) && TOP_KEY(__cmd) != NULL) ==> ( \
-	SPEC_SETKEY_OK(TOP_ALG(__cmd), 1, TOP_KEY(__cmd)->alg) && \
-	g_parsed_alg == SPEC_PINNED_ALG(TOP_ALG(__cmd), 1, TOP_KEY(__cmd)->alg) && \
-	TOP_KEY(__cmd)->kty == SPEC_KTY_FOR(g_parsed_alg)))
-/* C03: with a key never unsigned / alg none; without a key only alg none, empty signature */
-#define C03_TOP_CLAUSES \
-__CPROVER_ensures((TOP_ACCEPTED(__cmd) && TOP_KEY(__cmd) != NULL) ==> (TOP_SIGNED(token) && g_parsed_alg != JWT_ALG_NONE)) \
-__CPROVER_ensures((TOP_ACCEPTED(__cmd) && TOP_KEY(__cmd) == NULL) ==> \
-	(!TOP_SIGNED(token) && g_parsed_alg == JWT_ALG_NONE && TOP_ALG(__cmd) == JWT_ALG_NONE))
-/* C04 + C19: the claims of the token AS PARSED decide, whatever the callback did to the object */
-#define C04_TOP_CLAUSES \
-__CPROVER_ensures((__cmd != NULL && g_parse_ret == 0 && g_parse_called && SNAP_FAILS(__cmd)) ==> __CPROVER_return_value != 0)
-#define C19_TOP_CLAUSES \
-__CPROVER_ensures((__cmd != NULL && g_cb_called && g_cb_ret != 0) ==> __CPROVER_return_value != 0) \
-C04_TOP_CLAUSES
-/* C06: whatever jwt_parse refuses is refused */
+__CPROVER_ensures((__cmd != NULL && __CPROVER_return_value == 0) ==> ( \
+	g_parse_called && g_parse_ret == 0 && g_vc_calls == 1 && g_vc_error == 0 && g_vc_token == token && \
+	g_vc_plen == g_parsed_len && g_vc_hdr_alg == g_parsed_alg && g_vc_checker == (const void *)__cmd))
 #define C06_TOP_CLAUSES \
 __CPROVER_ensures((__cmd != NULL && (token == NULL || token[0] == 0)) ==> __CPROVER_return_value != 0) \
 __CPROVER_ensures((__cmd != NULL && g_parse_called && g_parse_ret != 0) ==> __CPROVER_return_value != 0)
-/* C09 */
-#define C09_TOP_CLAUSES \
-__CPROVER_ensures((TOP_ACCEPTED(__cmd) && TOP_KEY(__cmd) != NULL) ==> \
-	(SPEC_HMAC_OK(g_parsed_alg, TOP_KEY(__cmd)->bits) || SPEC_ASYM_OK(g_parsed_alg, TOP_KEY(__cmd)->bits)))
-DECL_jwt_checker_verify(contract_C01_jwt_checker_verify, C01_TOP_CLAUSES);
-DECL_jwt_checker_verify(contract_C02_jwt_checker_verify, C02_TOP_CLAUSES);
-DECL_jwt_checker_verify(contract_C03_jwt_checker_verify, C03_TOP_CLAUSES);
-DECL_jwt_checker_verify(contract_C04_jwt_checker_verify, C04_TOP_CLAUSES);
-DECL_jwt_checker_verify(contract_C06_jwt_checker_verify, C06_TOP_CLAUSES);
-DECL_jwt_checker_verify(contract_C09_jwt_checker_verify, C09_TOP_CLAUSES);
-DECL_jwt_checker_verify(contract_C13_jwt_checker_verify, );
-DECL_jwt_checker_verify(contract_C14_jwt_checker_verify, C14_TOP_CLAUSES);
-DECL_jwt_checker_verify(contract_C19_jwt_checker_verify, C19_TOP_CLAUSES);
+/* C02 / C03 / C19: the key and algorithm that reach the policy check are the
+ * stored ones (no callback) or the callback's, and in both cases they passed
+ * the setkey admission table */
+#define C02_TOP_CLAUSES \
+__CPROVER_ensures((NOCB(__cmd) && __CPROVER_return_value == 0) ==> (g_vc_key == __cmd->c.key && g_vc_alg == __cmd->c.alg)) \
+__CPROVER_ensures((WITHCB(__cmd) && __CPROVER_return_value == 0) ==> (g_cb_called && g_vc_key == g_cb_key && g_vc_alg == g_cb_alg)) \
+__CPROVER_ensures((__cmd != NULL && __CPROVER_return_value == 0 && g_vc_key != NULL) ==> SPEC_SETKEY_OK(g_vc_alg, 1, g_vc_key->alg)) \
+__CPROVER_ensures((__cmd != NULL && __CPROVER_return_value == 0 && g_vc_key == NULL) ==> g_vc_alg == JWT_ALG_NONE)
+/* C19: a callback that fails makes verification fail; the claims that are
+ * judged are the claims that were parsed, whatever the callback did */
+#define C19_TOP_CLAUSES \
+__CPROVER_ensures((__cmd != NULL && g_cb_called && g_cb_ret != 0) ==> __CPROVER_return_value != 0) \
+__CPROVER_ensures((__cmd != NULL && __CPROVER_return_value == 0) ==> ( \
+	g_vc_has == g_parsed_has && g_vc_type == g_parsed_type && g_vc_int == g_parsed_int && g_vc_str == g_parsed_str))
+DECL_jwt_checker_verify(contract_all_jwt_checker_verify, C14_TOP_CLAUSES C01_TOP_CLAUSES C06_TOP_CLAUSES C02_TOP_CLAUSES C19_TOP_CLAUSES);
 #endif
 
 #endif
